@@ -28,7 +28,15 @@ pub enum Scenario {
     /// run in the harness crate itself (declares features `alloc` and `std`)
     InProcess(Seq),
     /// run by the downstream binary built with (`true`) / without (`false`) features named alloc/std
-    Downstream { with_features: bool, seqs: Vec<Seq> },
+    /// `rrtk_build`: 0 = rrtk with std (the `downstream` crate), 1 = rrtk with alloc only, 2 = rrtk without any feature
+    /// (the `ds_variants` crate, which declares no features named alloc/std; `with_features` is ignored for 1 and 2).
+    /// Sequences are mapped onto the variants that exist in the build.
+    Downstream {
+        with_features: bool,
+        seqs: Vec<Seq>,
+        #[serde(default)]
+        rrtk_build: u8,
+    },
     /// 0 ArcMutex, 1 ArcRwLock, 2 static Mutex, 3 static RwLock
     Threads { variant: u8, threads: u8, increments: u32 },
     /// like Threads, but the first thread holds one of its mutable borrows for `hold_ms` while the others wait
@@ -59,8 +67,20 @@ fn hops(ops: &[SOp]) -> Vec<HOp> {
 fn seq_key(s: &Seq) -> u64 {
     hash_of(&(s.variant % 6, s.ops.iter().map(|o| match o { SOp::Clone(k) => (0u8, *k, 0i64), SOp::ToDyn(k) => (1, *k, 0), SOp::Read(k) => (2, *k, 0), SOp::Write(k, v) => (3, *k, *v), SOp::Drop(k) => (4, *k, 0) }).collect::<Vec<_>>()))
 }
-fn ds_binary(with_features: bool) -> String {
-    format!("{}/work/target-ds-{}/release/downstream", verif_root().display(), if with_features { "feat" } else { "nofeat" })
+fn ds_binary(with_features: bool, rrtk_build: u8) -> String {
+    match rrtk_build % 3 {
+        0 => format!("{}/work/target-ds-{}/release/downstream", verif_root().display(), if with_features { "feat" } else { "nofeat" }),
+        1 => format!("{}/work/target-ds-alloc/release/ds_variant", verif_root().display()),
+        _ => format!("{}/work/target-ds-bare/release/ds_variant", verif_root().display()),
+    }
+}
+/// the variant a sequence runs on in a given build of rrtk (std: all six; alloc: Ptr, RcRefCell; none: Ptr)
+fn variant_in(build: u8, i: u8) -> Variant {
+    match build % 3 {
+        0 => variant(i),
+        1 => [Variant::Ptr, Variant::RcRefCell][i as usize % 2],
+        _ => Variant::Ptr,
+    }
 }
 
 fn static_mutex_ref() -> Reference<i64> {
@@ -169,31 +189,43 @@ pub fn check(s: &Scenario) -> CheckResult {
             Ok(info) => Ok(CaseInfo::new(info.nontrivial, seq_key(seq)).class("in-process (features declared)").class_if(info.used_dyn, "uses to_dyn!").class_if(info.max_handles >= 3, ">= 3 live handles")),
             Err((key, msg)) => Err(Violation::new(key, format!("{} (variant {:?}, ops {:?})", msg, variant(seq.variant), seq.ops))),
         },
-        Scenario::Downstream { with_features, seqs } => {
-            let bin = ds_binary(*with_features);
+        Scenario::Downstream { with_features, seqs, rrtk_build } => {
+            let build = *rrtk_build % 3;
+            let build_name = ["rrtk built with std", "rrtk built with alloc only", "rrtk built without features"][build as usize];
+            let bin = ds_binary(*with_features, build);
             let mut child = Proc::new(&bin).stdin(Stdio::piped()).stdout(Stdio::piped()).stderr(Stdio::null()).spawn().map_err(|e| Violation::new("C17/infrastructure", format!("cannot start {}: {}", bin, e)))?;
             {
                 let mut stdin = child.stdin.take().unwrap();
                 for q in seqs {
-                    writeln!(stdin, "{}", ref_interp::encode(variant(q.variant), &hops(&q.ops))).unwrap();
+                    writeln!(stdin, "{}", ref_interp::encode(variant_in(build, q.variant), &hops(&q.ops))).unwrap();
                 }
             }
             let out = child.wait_with_output().map_err(|e| Violation::new("C17/infrastructure", format!("{}", e)))?;
             let text = String::from_utf8_lossy(&out.stdout);
             let lines: Vec<&str> = text.lines().collect();
-            ensure!(lines.len() == seqs.len(), "C17/downstream-crashed", "the downstream binary ({}) answered {} of {} sequences (exit {:?})", if *with_features { "with features" } else { "without features" }, lines.len(), seqs.len(), out.status.code());
+            ensure!(lines.len() == seqs.len(), "C17/downstream-crashed", "the downstream binary ({}, {}) answered {} of {} sequences (exit {:?})", if *with_features && build == 0 { "with features" } else { "without features" }, build_name, lines.len(), seqs.len(), out.status.code());
             let mut nontrivial = false;
             for (q, l) in seqs.iter().zip(&lines) {
                 if let Some(rest) = l.strip_prefix("fail ") {
                     let mut p = rest.splitn(2, '\t');
                     let key = p.next().unwrap_or("C17/unknown").to_string();
                     let msg = p.next().unwrap_or("");
-                    let key = if *with_features { key } else { format!("{}/featureless-caller", key) };
-                    return Err(Violation::new(key, format!("in a calling crate {} features named alloc/std: {} (variant {:?}, ops {:?})", if *with_features { "with" } else { "without" }, msg, variant(q.variant), q.ops)));
+                    let key = match (build, *with_features) {
+                        (0, true) => key,
+                        (0, false) => format!("{}/featureless-caller", key),
+                        (1, _) => format!("{}/alloc-only-rrtk", key),
+                        _ => format!("{}/featureless-rrtk", key),
+                    };
+                    return Err(Violation::new(key, format!("in a calling crate {} features named alloc/std, {}: {} (variant {:?}, ops {:?})", if *with_features && build == 0 { "with" } else { "without" }, build_name, msg, variant_in(build, q.variant), q.ops)));
                 }
                 nontrivial |= *l == "ok 1";
             }
-            Ok(CaseInfo::new(nontrivial, hash_of(&(*with_features, seqs.iter().map(seq_key).collect::<Vec<_>>()))).class(if *with_features { "downstream crate with features alloc/std" } else { "downstream crate without features" }))
+            Ok(CaseInfo::new(nontrivial, hash_of(&(*with_features, build, seqs.iter().map(seq_key).collect::<Vec<_>>()))).class(match (build, *with_features) {
+                (0, true) => "downstream crate with features alloc/std",
+                (0, false) => "downstream crate without features",
+                (1, _) => "downstream crate against an alloc-only rrtk",
+                _ => "downstream crate against a feature-less rrtk",
+            }))
         }
         Scenario::Threads { variant, threads, increments } => {
             stress(*variant, *threads, *increments)?;
@@ -295,13 +327,13 @@ fn seq() -> BoxedStrategy<Seq> {
 pub struct C17;
 impl Property for C17 {
     const ID: &'static str = "C17";
-    const RULE: &'static str = "random sequences of 0..12 operations {clone(k), to_dyn(k), borrow-read(k), borrow_mut-write(k, v), drop(k)} over a growing set of handles for each of the six Reference variants (raw-pointer variants backed by heap objects the harness frees afterwards; payload counts its drops), interpreted by one shared interpreter that is compiled into three crates: the harness (declares features alloc, std), a downstream crate built with `--features std` and the same downstream crate built with no features; plus 2..8 threads x 1e3..1e5 read-yield-write increments under borrow_mut() of per-thread References over one shared Arc<Mutex>, Arc<RwLock>, static Mutex or static RwLock; plus the static_* macros; plus four library crates ({#![no_std], std} x {with, without cfg(feature = alloc/std)}) that call to_dyn! on Ptr / RcRefCell / PtrRwLock References and must compile against the std-built rrtk whenever their twin without the calls does. Oracle: one-shared-cell model (every write is read back through every live handle), drop exactly once after the last counted handle and never while a handle lives, to_dyn! never panics for the variants it lists in any of the three crates and the result aliases the object, final counter == threads x increments. Non-trivial = a sequence with >= 2 handles of which >= 1 came from to_dyn! and a write through one handle read through another (or a thread / statics case); distinct = (crate, variant, op sequence).";
+    const RULE: &'static str = "random sequences of 0..12 operations {clone(k), to_dyn(k), borrow-read(k), borrow_mut-write(k, v), drop(k)} over a growing set of handles for each of the six Reference variants (raw-pointer variants backed by heap objects the harness frees afterwards; payload counts its drops), interpreted by one shared interpreter that is compiled into three crates: the harness (declares features alloc, std), a downstream crate built with `--features std`, the same downstream crate built with no features, and a second feature-less crate built against rrtk with `alloc` only (variants Ptr, RcRefCell) and against rrtk with no features at all (Ptr) - the three cfg-selected definitions of to_dyn!; plus 2..8 threads x 1e3..1e5 read-yield-write increments under borrow_mut() of per-thread References over one shared Arc<Mutex>, Arc<RwLock>, static Mutex or static RwLock; plus the static_* macros; plus four library crates ({#![no_std], std} x {with, without cfg(feature = alloc/std)}) that call to_dyn! on Ptr / RcRefCell / PtrRwLock References and must compile against the std-built rrtk whenever their twin without the calls does. Oracle: one-shared-cell model (every write is read back through every live handle), drop exactly once after the last counted handle and never while a handle lives, to_dyn! never panics for the variants it lists in any of the three crates and the result aliases the object, final counter == threads x increments. Non-trivial = a sequence with >= 2 handles of which >= 1 came from to_dyn! and a write through one handle read through another (or a thread / statics case); distinct = (crate, variant, op sequence).";
     type Scenario = Scenario;
     fn strategy(tier: Tier) -> BoxedStrategy<Scenario> {
         let inc = tier.pick(20_000u32, 100_000u32);
         prop_oneof![
             60 => seq().prop_map(Scenario::InProcess),
-            3 => (any::<bool>(), proptest::collection::vec(seq(), 1..=12)).prop_map(|(with_features, seqs)| Scenario::Downstream { with_features, seqs }),
+            3 => (any::<bool>(), proptest::collection::vec(seq(), 1..=12), prop_oneof![2 => Just(0u8), 1 => Just(1u8), 1 => Just(2u8)]).prop_map(|(with_features, seqs, rrtk_build)| Scenario::Downstream { with_features, seqs, rrtk_build }),
             1 => (0u8..4, 2u8..=8, 1_000u32..=inc).prop_map(|(variant, threads, increments)| Scenario::Threads { variant, threads, increments }),
         ]
         .boxed()
@@ -335,7 +367,14 @@ impl Property for C17 {
         }
         for with_features in [true, false] {
             for chunk in all.chunks(108) {
-                sink(Scenario::Downstream { with_features, seqs: chunk.to_vec() });
+                sink(Scenario::Downstream { with_features, seqs: chunk.to_vec(), rrtk_build: 0 });
+            }
+        }
+        // the same sequences against an alloc-only rrtk (Ptr, RcRefCell) and a feature-less rrtk (Ptr): the other two
+        // definitions of to_dyn! and the cfg-gated halves of Reference
+        for rrtk_build in [1u8, 2] {
+            for chunk in all.chunks(108) {
+                sink(Scenario::Downstream { with_features: false, seqs: chunk.to_vec(), rrtk_build });
             }
         }
         for variant in 0..4u8 {
@@ -344,7 +383,7 @@ impl Property for C17 {
         for variant in 0..4u8 {
             sink(Scenario::LongHold { variant, threads: 3, hold_ms: _tier_hold });
         }
-        vec![format!("6 variants x all 3-op prefixes over a 6-letter alphabet + fixed tail ({} sequences) in each of the three crates; static_* macros; one stress run per lock variant", n)]
+        vec![format!("6 variants x all 3-op prefixes over a 6-letter alphabet + fixed tail ({} sequences) in each of the three crates and against an alloc-only and a feature-less rrtk; static_* macros; one stress run per lock variant", n)]
     }
     fn check(s: &Scenario) -> CheckResult {
         check(s)
